@@ -54,11 +54,11 @@ def grid(tier, rng):
         for p in P:
             calls += [f'{o} {hx(p)}' for o in one]
             calls += [f'mkfile_m {hx(p)} 640', f'mkdir_m {hx(p)} 750', f'chmod {hx(p)} 600', f'chmod {hx(p)} 755', f'write_all {hx(p)} {hx("new")}', f'append_all {hx(p)} {hx("+")}']
-            for q in ['/a', '/zz', '/a/b', '/b/n', 'n', '/l', '/g']:
+            for q in ['/a', '/zz', '/a/b', '/b/n', 'n', '/l', '/g', '/zz/y/w']:
                 calls += [f'copy {hx(p)} {hx(q)}', f'move_p {hx(p)} {hx(q)}', f'symlink {hx(p)} {hx(q)}']
         if tier == 'quick':
-            # a random sample plus every copy / move of the main directory of the tree
-            keep = [c for c in calls if c.split(' ')[0] in ('copy', 'move_p') and c.split(' ')[1] == hx('/a')]
+            # a random sample plus every copy / move of the main directory of the tree and of a file in it
+            keep = [c for c in calls if c.split(' ')[0] in ('copy', 'move_p') and c.split(' ')[1] in (hx('/a'), hx('/a/f'))]
             calls = rng.sample(calls, 240) + keep
         for c in calls:
             H.append([N] + tr + [c, 'all_paths ' + hx('/')])
